@@ -25,6 +25,9 @@ from hyverif import build as hb
 
 VERIF = Path(__file__).resolve().parent.parent
 PY = sys.executable
+# self-validation runs against a scratch copy must not touch the real evidence
+SCRATCH = bool(os.environ.get("VERIF_NO_EVIDENCE"))
+OUTROOT = (VERIF / ".work" / "scratch-out") if SCRATCH else VERIF
 
 
 def load_findings():
@@ -275,7 +278,7 @@ def finish(a, pid, mod, m, inconclusive, t0, builddir, extra_cov=None):
     newviol = 0
     seen_known = []
     lines = []
-    rdir = VERIF / "replays" / pid
+    rdir = OUTROOT / "replays" / pid
     for key, v in sorted(m["violations"].items()):
         if key in known:
             seen_known.append(key)
@@ -366,8 +369,8 @@ def write_evidence(pid, a, mod, cov, _unused, inconclusive, t0, extra):
         "wall_s": round(time.time() - t0, 2),
         "violations": int(extra.get("violations", 0)),
     }
-    p = VERIF / "evidence" / f"{pid}.json"
-    p.parent.mkdir(exist_ok=True)
+    p = OUTROOT / "evidence" / f"{pid}.json"
+    p.parent.mkdir(parents=True, exist_ok=True)
     p.write_text(json.dumps(strict(ev), indent=1, default=str, allow_nan=False))
     try:
         import jsonschema
